@@ -12,7 +12,7 @@ import json
 import sys
 import zipfile
 
-from ctlcase import OPEN, READ, GENAPI, CLOSE, RETRY, ctl_case, parse_output, show_data, std_world, le, World
+from ctlcase import OPEN, READ, GENAPI, CLOSE, RETRY, ctl_case, parse_output, show_data, std_world, le, World, WRITE
 from vplib import Check, Rng, Case, _clip, zlist, xhex
 
 U64 = 1 << 64
@@ -229,9 +229,48 @@ def oracle_tables(w):
     return "[" + ";".join(st) + "]", "[" + ";".join(ut) + "]"
 
 
+def worlds_along(c):
+    """the device memory before the history and after each WRITE of it (the host can store new files)"""
+    w, _, ops = parse_tokens(c.toks)
+    out = [w]
+    i = 0
+    while i < len(ops):
+        op = int(ops[i])
+        if op == WRITE:
+            import copy
+            w = copy.deepcopy(w)
+            w.write(int(ops[i + 1]), bytes.fromhex(str(ops[i + 2])[1:]))
+            out.append(w)
+            i += 3
+        elif op == READ:
+            i += 3
+        elif op == RETRY:
+            i += 2
+        else:
+            i += 1
+    return out
+
+
+def oracle_tables_all(ws):
+    st, ut, seen = [], [], set()
+    for w in ws:
+        a, b = oracle_tables(w)
+        for item in a[1:-1].split(";((") if a != "[]" else []:
+            item = item if item.startswith("((") else "((" + item
+            if item not in seen:
+                seen.add(item)
+                st.append(item)
+        for item in b[1:-1].split(";((") if b != "[]" else []:
+            item = item if item.startswith("((") else "((" + item
+            if ("u", item) not in seen:
+                seen.add(("u", item))
+                ut.append(item)
+    return "[" + ";".join(st) + "]", "[" + ";".join(ut) + "]"
+
+
 def model_term(c):
-    w, _, _ = parse_tokens(c.toks)
-    st, ut = oracle_tables(w)
+    ws = worlds_along(c)
+    st, ut = oracle_tables(ws[0]) if len(ws) == 1 else oracle_tables_all(ws)
     return "run_fetch %s %s %s" % (st, ut, zlist(c.expanded()))
 
 
@@ -322,6 +361,15 @@ def predicate(c, out):
         elif op == RETRY:
             i += 2
         elif op == READ:
+            i += 3
+        elif op == WRITE:
+            # the host itself changes device memory through the handle (e.g. a new file and manifest entry are
+            # stored): from now on the specification is that of the new memory contents
+            if opened and r[0] == "ok":
+                w.write(int(ops[i + 1]), bytes.fromhex(str(ops[i + 2])[1:]))
+                sp = spec(w)
+                mm = manifest_of(w)
+                inval = mm is not None and any(e["info"] is not None and (e["info"] & 7) > 1 for e in mm[1])
             i += 3
         elif op == GENAPI:
             i += 1
@@ -546,6 +594,28 @@ def gen_cases(ck):
             ops = (OPEN, GENAPI) + ((GENAPI,) if twice else ()) + (READ, FILES, 4)
             cases.append(case(d, ops=ops, plans=[6, 6 + k, 5, -1, 1, 2, xhex(bytes(raw_len))], fam="buffer restore",
                               lenient=True))
+    # the manifest changes between two retrievals on ONE handle (also across close / open): a newer DeviceXml entry is
+    # stored in another slot (the host writes the file, the entry and the new count through the handle); every
+    # retrieval answers for the table as it is then, nothing about the earlier selection may be remembered
+    for reopen in (False, True):
+        for comp in (0, 1):
+            d = Dev(max_cmd=1024, max_ack=1024)
+            old_doc = doc("a-1.2.0", 300)
+            new_doc = doc("b-2.0.0", 280)
+            new_data = mkzip([("b.xml", new_doc)]) if comp else new_doc
+            d.entry(ver32(1, 2, 0), old_doc, sha="ok")
+            w0 = d.world()
+            new_addr = d.next
+            # (the bytes of the future file and of the second table slot exist already, as zeros)
+            w0.seg(new_addr, bytes(len(new_data)))
+            tab_img = le(1, 8) + d.entries[0] + bytes(64)
+            w0.seg(d.tab, tab_img)
+            e1 = entry_bytes(ver32(2, 0, 0), info32(0, comp, (1, 1), 0), new_addr, len(new_data),
+                             hashlib.sha1(new_data).digest(), 0)
+            mid = (CLOSE, OPEN) if reopen else ()
+            ops = (OPEN, GENAPI, WRITE, new_addr, xhex(new_data), WRITE, d.tab + 8 + 64, xhex(e1),
+                   WRITE, d.tab, xhex(le(2, 8))) + mid + (GENAPI,)
+            cases.append(case(w0, ops=ops, fam="manifest changes between retrievals"))
     # table at the very top of the address space; manifest address itself hostile
     for n in (1, 2):
         top = U64 - 8 - 64 * n
